@@ -10,6 +10,7 @@ import (
 	"github.com/nulab/autog/internal/processor"
 	"github.com/nulab/autog/internal/processor/postprocessor"
 	"github.com/nulab/autog/internal/processor/preprocessor"
+	"github.com/nulab/autog/internal/verifhook"
 )
 
 // Layout executes the layout algorithm on the graph G obtained from source. It panics if G contains no nodes.
@@ -69,6 +70,7 @@ func Layout(source graph.Source, opts ...Option) graph.Layout {
 		// run subgraph through the pipeline
 		for _, phase := range pipeline {
 			phase.Process(g, layoutOpts.params)
+			verifhook.AfterPhase(phase.Phase(), g)
 		}
 
 		// post-processing
